@@ -24,7 +24,7 @@ RULE = (
     "response texts generated from a JSON grammar: bulk (0..3 items: status x _shards x error form x adversarial reason strings, "
     "consistent and shard-failure-only 'errors' flags, optional ingest_took), search / scroll pages (hits.total int or object, 0..3 hits "
     "with sort arrays over an adversarial alphabet, optional matched_queries / inner_hits / late _source after sort, pit_id, "
-    "_scroll_id), composite aggregations (after_key present/absent, nested path); every rotation and reversal of the top-level keys; "
+    "_scroll_id), composite aggregations (after_key present/absent, nested path, source names with dots); every rotation and reversal of the top-level keys; "
     "serialisations compact / spaced / pretty x raw UTF-8 / \\u-escaped; multi-page scripts through the real Query runner. "
     "non-trivial = text with at least one item or hit; distinct = the text"
 )
@@ -332,7 +332,8 @@ def check_search(doc, feats, order, style, ascii_, res):
 
 
 def composite_docs():
-    for after in (None, {"k": "v"}, {"k": "a]b", "n": 3}, {"k": "é", "b": True}, {"a": '"after_key"', "z": 1.5}):
+    for after in (None, {"k": "v"}, {"k": "a]b", "n": 3}, {"k": "é", "b": True}, {"a": '"after_key"', "z": 1.5},
+                  {"host.name": "h1", "source.ip": "10.0.0.1", "destination.ip": "10.0.0.2"}, {"a.b.c": 1, "c": 2, "b.c": None}):
         for path in (["c"], ["outer", "c"]):
             agg = {"buckets": [{"key": {"k": "x"}, "doc_count": 3}]}
             if after is not None:
